@@ -6,3 +6,4 @@ uint8_t vp_in_u8(void) { uint8_t v = nondet_uint8(); return v; }
 uint16_t vp_in_u16(void) { uint16_t v = nondet_uint16(); return v; }
 uint32_t vp_in_u32(void) { uint32_t v = nondet_uint32(); return v; }
 uint64_t vp_in_u64(void) { uint64_t v = nondet_uint64(); return v; }
+int vp_second_run;   /* rt/model_twice.c (C20) */
